@@ -261,6 +261,52 @@ class Canon(ast.NodeTransformer):
             # the binding itself becomes a no-op
             st.value = ast.Constant(value=None)
             self.applied["K9"] = self.applied.get("K9", 0) + 1
+        # jobs = (task(x) for x in xs); Parallel(..)(jobs)
+        #   ->  Parallel(..)(task(x) for x in xs)
+        # (jobs bound once, used once - as the only argument of a call whose
+        # callee is itself a call - in the same block, and nothing in
+        # between rebinds a name the generator reads)
+        for blk in [n for n in ast.walk(fn) if hasattr(n, "body")
+                    and isinstance(getattr(n, "body"), list)]:
+            for field in ("body", "orelse", "finalbody"):
+                body = getattr(blk, field, None)
+                if not isinstance(body, list):
+                    continue
+                for i, st in enumerate(body):
+                    if not (isinstance(st, ast.Assign)
+                            and len(st.targets) == 1
+                            and isinstance(st.targets[0], ast.Name)
+                            and isinstance(st.value, (ast.GeneratorExp,
+                                                      ast.ListComp))):
+                        continue
+                    name = st.targets[0].id
+                    occ = [n for n in ast.walk(fn) if isinstance(n, ast.Name)
+                           and n.id == name]
+                    if len(occ) != 2:
+                        continue
+                    use = None
+                    for j in range(i + 1, len(body)):
+                        for c in ast.walk(body[j]):
+                            if isinstance(c, ast.Call) and isinstance(
+                                    c.func, ast.Call) and len(c.args) == 1 \
+                                    and not c.keywords and isinstance(
+                                        c.args[0], ast.Name) and \
+                                    c.args[0].id == name:
+                                use = (j, c)
+                        if use:
+                            break
+                    if not use:
+                        continue
+                    j, c = use
+                    reads = _names(st.value)
+                    between = set()
+                    for k in range(i + 1, j):
+                        between |= _stores(body[k])
+                    if reads & between:
+                        continue
+                    c.args[0] = st.value
+                    st.value = ast.Constant(value=None)
+                    self.applied["K9"] = self.applied.get("K9", 0) + 1
         ast.fix_missing_locations(fn)
 
     visit_AsyncFunctionDef = visit_FunctionDef
